@@ -166,3 +166,23 @@ Theorem C04_no_hot_loop : forall w c key resp,
   g_writes (step w (Begin c key resp false)) = g_writes w.
 Proof. exact quiescent_no_write. Qed.
 Print Assumptions C04_no_hot_loop.
+
+(* The at-rest clause of the quiescence monitor (Corr/WorldMon.verdict_at_rest: "environment done and a budget => verdict", the
+   clause the check evaluates on the IMPLEMENTATION's final state) holds on the model's own projections: for every history of the
+   model without teardown and with fresh algorithm replies that ends quiescent, any case whose final state is the projection of
+   that world passes the clause.  The environment-done test is the monitor's boolean on the projection, not the model's Prop. *)
+From KV Require Proofs.WorldRest Corr.WorldC Corr.WorldMon.
+Theorem C04_monitor_at_rest_sound : forall c acts,
+  valid_cfg c -> no_teardown acts -> fresh_run c acts -> quiescent (run c acts) ->
+  forall k, WorldMon.last_state k = WorldC.project (run c acts) -> WorldMon.verdict_at_rest k = true.
+Proof. exact WorldRest.verdict_at_rest_model. Qed.
+Print Assumptions C04_monitor_at_rest_sound.
+
+(* Non-vacuity: the final state of the repaired F18 history meets the premises, its environment is done in the monitor's sense
+   and its experiment has a budget -- there the clause demands the verdict, and the verdict is there. *)
+Theorem C04_monitor_at_rest_premises_satisfiable :
+  valid_cfg f18_cfg /\ no_teardown f18_acts /\ fresh_run f18_cfg f18_acts /\ quiescent (run f18_cfg f18_acts) /\
+  WorldMon.env_done (WorldC.project (run f18_cfg f18_acts)) = true /\
+  exists e, WorldC.pj_exp (WorldC.project (run f18_cfg f18_acts)) = Some e /\ WorldC.pe_max e = Some 2 /\ WorldMon.pe_completed e = true.
+Proof. exact WorldRest.at_rest_premises_hold. Qed.
+Print Assumptions C04_monitor_at_rest_premises_satisfiable.
